@@ -113,7 +113,10 @@ Record env := {
   e_create : path -> io_res;               (* File::create *)
   e_read : bool;                           (* Minidump::read_path is Ok *)
   e_process : bool;                        (* process_minidump_with_options is Ok *)
-  e_write : writer -> renderer -> io_res   (* the printer's io::Result *)
+  e_write : writer -> renderer -> io_res;  (* the printer's io::Result *)
+  e_partial : writer -> renderer -> bool   (* a failing printer call had already put bytes on the sink
+                                              (the printers stream: write!/writeln! straight to the File or
+                                              the line-buffered stdout; nothing is staged) *)
 }.
 
 Inductive channel := Logger | Stderr.      (* error!(..) goes through the logger, "Error: {e}" is eprintln! *)
